@@ -362,6 +362,44 @@ def check(run):
             return
     for k in range(32 if run.quick else 400):
         get_field_case(run, ps, rng, k)
+    # grids only two cells thick along an axis (the two outer cells of the 3-cell kernel are then the same cell: both shares must
+    # arrive), and every thread count against particle counts that do not divide evenly (the per-thread chunks must cover every
+    # particle exactly once): each compared cell by cell with the reference kernel
+    thin = [((8, 6, 2), 0), ((2, 2, 2), 0), ((16, 2, 5), 0), ((2, 9, 12), 1), ((12, 12, 2), 1), ((3, 2, 2), 0)]
+    for j, (shape, coord) in enumerate(thin):
+        for gdt in (np.float32, np.float64):
+            N = [200, 17, 2000][j % 3]
+            pos = families(rng, shape, 123.0, gdt, ['random', 'halfedges', 'centres'][j % 3], N)
+            w = None if j % 2 else rng.uniform(0, 3, N).astype(gdt)
+            for nthread in (1, 4):
+                desc = dict(kernel='tsc', family='two-cell-thick axis', shape=list(shape), box=123.0, N=N, nthread=nthread, coord=coord, weights=w is not None, grid_dtype=np.dtype(gdt).str)
+                run.ev()
+                try:
+                    with warnings.catch_warnings():
+                        warnings.simplefilter('ignore')
+                        out = tsc.tsc_parallel(pos.copy(), np.zeros(shape, dtype=gdt), 123.0, weights=w, nthread=nthread, coord=coord)
+                except ValueError:
+                    run.count('rejected_configs')
+                    continue
+                run.count('thin_grid_cases')
+                ref = mas.ref_paint(pos.astype(np.float64), shape, 123.0, w, offset=0.0, kind='tsc')
+                run.nt(('tsc-thin', shape, nthread, desc['grid_dtype']))
+                compare(run, out, ref, tol_grid(mas.ref_paint(pos.astype(np.float64), shape, 123.0, None if w is None else np.abs(w), offset=0.0, kind='tsc'), shape, gdt, gdt, npart=N), desc, 'tsc-kernel')
+    for nthread in range(2, 17):
+        for N in (15, 61, 115, 4009, int(rng.integers(2, 3000))):
+            shape = [(16, 16, 16), (32, 8, 8), (24, 24, 24)][(nthread + N) % 3]
+            pos = families(rng, shape, 500.0, np.float64, 'random', N)
+            w = rng.integers(1, 5, N).astype(np.float64)
+            desc = dict(kernel='tsc', family='thread-count x particle-count sweep', shape=list(shape), box=500.0, N=N, nthread=nthread, weights='int', npartition=None)
+            run.ev()
+            with warnings.catch_warnings():
+                warnings.simplefilter('ignore')
+                out = tsc.tsc_parallel(pos.copy(), np.zeros(shape, dtype=np.float64), 500.0, weights=w, nthread=nthread)
+            run.count('thread_by_particle_count_cases')
+            ref = mas.ref_paint(pos, shape, 500.0, w, offset=0.0, kind='tsc')
+            run.nt(('tsc-chunks', nthread, N))
+            if compare(run, out, ref, tol_grid(ref, shape, np.float64, np.float64), desc, 'tsc-kernel'):
+                break
     # "additive over particles" under threads rests on concurrently painted stripes never sharing a cell: for anisotropic grids
     # partitioned along y or z this is decided deterministically by the region recorder of C07 (a handful of configurations here;
     # the sweep over all of them is C07's)
